@@ -115,9 +115,10 @@ Compatible(alg, enc) == ~(alg \in {"ECDH-1PU+A128KW", "ECDH-1PU+A192KW", "ECDH-1
                           /\ JweEncOf(enc).fam # "cbc")
 
 \* The call spaces are enumerated by nested quantifiers in Next (TLC then never builds the product set).
-JwsAlgDomain == JwsNames \cup {Unknown, "A128KW"} \cup IllTyped
-JweAlgDomain == JweAlgNames \cup {Unknown, "HS256", "A128GCM"} \cup IllTyped
-JweEncDomain == JweEncNames \cup {Unknown, "A128KW", "#int", "#null"}
+\* "#empty": the member is present and is the empty string - a name like any other unknown one
+JwsAlgDomain == JwsNames \cup {Unknown, "A128KW", "#empty"} \cup IllTyped
+JweAlgDomain == JweAlgNames \cup {Unknown, "HS256", "A128GCM", "#empty"} \cup IllTyped
+JweEncDomain == JweEncNames \cup {Unknown, "A128KW", "#int", "#null", "#empty"}
 
 \* reduced menu for histories: calls whose outcome differs between allow-lists
 HistCalls(r) ==
@@ -158,7 +159,7 @@ JweAlgNext ==
     /\ Compatible(alg, enc)
     /\ \E al \in AllowMenu("jwe", {alg, enc}, reg) : DoCall(Call("jwe", op, ser, via, al, alg, enc, ""))
 JweEncNext ==
-  \E alg \in {"dir", "A128KW", "ECDH-ES+A192KW"}, enc \in JweEncDomain, zip \in {"", "DEF", Unknown, "#int"},
+  \E alg \in {"dir", "A128KW", "ECDH-ES+A192KW"}, enc \in JweEncDomain, zip \in {"", "DEF", Unknown, "#int", "#empty"},
      op \in Ops, ser \in JweSer, via \in Vias :
     /\ Compatible(alg, enc)
     /\ \E al \in AllowMenu("jwe", {alg, enc, zip}, reg) : DoCall(Call("jwe", op, ser, via, al, alg, enc, zip))
